@@ -330,6 +330,10 @@ class ModelMixin:
         return [ok(tuple(seq), st)]
 
     def bi_dict(self, args, kwargs, st, line):
+        if len(args) == 1 and not kwargs:
+            v = self.unwrap_opt(args[0], st, 'dict', line)
+            if isinstance(v, Ref) and st.obj(v).kind in ('dict', 'smap', 'symdict'):
+                return [ok(st.alloc(st.obj(v).clone()), st)]       # dict(mapping): a shallow copy
         if args:
             raise EngineError('dict(x)')
         return [ok(st.alloc(HObj('dict', items=dict(kwargs))), st)]
